@@ -130,3 +130,17 @@ def _v50(repo, mod):
 def _v51(repo, mod):
     from sa.selftest.harness import text_edit
     return text_edit(mod, "self._open(os.devnull, mode=\"w\")", "open(os.devnull, mode=\"w\")")
+
+
+@variant("C30", "root-handlers-not-restored", ISO, "C30.roundtrip", "handlers a test case installed stay (the repaired defect)")
+def _v60(repo, mod):
+    fn = repo.func(ISO, f"{OSC}.restore")
+    s = find_stmt(fn, lambda s: isinstance(s, ast.If) and "_saved_root_handlers" in norm(s.test))
+    return delete_stmt(mod, s)
+
+
+@variant("C30", "disabled-flags-not-restored", ISO, "C30.roundtrip", "loggers disabled by dictConfig stay disabled (the repaired defect)")
+def _v61(repo, mod):
+    fn = repo.func(ISO, f"{OSC}.restore")
+    s = find_stmt(fn, lambda s: isinstance(s, ast.If) and "_saved_disabled_loggers" in norm(s.test))
+    return delete_stmt(mod, s)
